@@ -28,6 +28,8 @@ From XV Require Import C20.Spec20 C20.Model20 C20.Hyps20 C20.Proofs20a C20.Proof
 From XV Require Import C20.Examples20 C20.Text20 C20.Uri20.
 Local Open Scope N_scope.
 
+Definition spec_ok (s : sres) : bool := match s with inr _ => true | inl _ => false end.
+
 (** ---- T20_terminates ---------------------------------------------------------------------------------
     Processing terminates for every finite file system: the fuel [enough_fuel] = (files + 1) * (largest
     document + 1) + largest document + 1 is never exhausted (measure: files not on the history stack, then
@@ -142,6 +144,32 @@ Theorem T20_expansion_parser : forall fs uri top pre ns nm a k post,
 Proof. exact parser_expansion. Qed.
 Print Assumptions T20_expansion_parser.
 
+(** the lazy-fallback property of the parser-driven route (XInclude 3.1: descendants of the children of xi:include
+    have no effect unless the fallback is performed): an xi:fallback is not looked into at all, and an xi:include that
+    succeeds gives the same nodes and the same diagnostics whatever its xi:fallback contains, at any depth *)
+Theorem T20_fallback_untouched : forall fs docuri fixb fixn fixc F base a k,
+  top_walk fs docuri fixb fixn fixc true F NS_XI base (Elem NS_XI s_fallback a k) = ([Elem NS_XI s_fallback a k], []).
+Proof. exact top_walk_fallback_untouched. Qed.
+Print Assumptions T20_fallback_untouched.
+
+Theorem T20_lazy_fallback : forall fs docuri fixb fixn fixc F pns base a kids kids' fb fb' nodes h',
+  forallb fb_or_leaf kids = true -> forallb fb_or_leaf kids' = true ->
+  scan_fallback kids None = FS_ok fb -> scan_fallback kids' None = FS_ok fb' ->
+  inc_resolve fs docuri fixb fixn fixc [] base a kids = (IR_repl nodes h', []) ->
+  top_walk fs docuri fixb fixn fixc true F pns base (Elem NS_XI s_include a kids) =
+  top_walk fs docuri fixb fixn fixc true F pns base (Elem NS_XI s_include a kids').
+Proof. exact lazy_fallback. Qed.
+Print Assumptions T20_lazy_fallback.
+
+(** ... e.g. a failing xi:include two ordinary elements deep in an unused xi:fallback: no diagnostic, neither by the
+    Spec nor by the repaired parser route; the old end-tag rule (fixe off) reported a fatal error *)
+Example T20_lazy_fallback_example :
+  xi_parser fs_f1deep true true true true uri_f1deep top_f1deep = (D_ok [Elem 0 [114] [] [Elem 0 [107] [(2, s_base, [111;107;46;120;109;108])] []]], []) /\
+  xi_resource_errors_doc fs_f1deep (enough_fuel fs_f1deep top_f1deep) uri_f1deep top_f1deep = (O, O) /\
+  spec_ok (xi_spec_doc fs_f1deep (enough_fuel fs_f1deep top_f1deep) uri_f1deep top_f1deep) = true /\
+  snd (xi_parser fs_f1deep true true true false uri_f1deep top_f1deep) = [E_IncludeFailedResourceError; E_IncludeFailedNoFallback].
+Proof. vm_compute. repeat split; reflexivity. Qed.
+
 Example T20_parser_nonvacuous :
   match split_root [] top_ok with
   | Some (_, Elem ns nm a k, _) => is_include ns nm = false /\ simple (Elem ns nm a k) = true
@@ -251,7 +279,6 @@ Proof. vm_compute. split; reflexivity. Qed.
 
 (** ---- refutations: the behaviours behind the findings violate the Spec ---------------------------------
     each with the switch of that finding off and the others on; the Spec accepts the document *)
-Definition spec_ok (s : sres) : bool := match s with inr _ => true | inl _ => false end.
 Definition model_matches (r : doc_result * list err) (uri : path) (s : sres) : Prop :=
   match r, s with (D_ok l, e), inr t => existsb is_fatal e = false /\ map (annot uri) l = t | _, _ => False end.
 
